@@ -176,14 +176,18 @@ theorem handover (X : Ix → K) (cs : List (Cpt K × Signal K)) (x : Ix → Sign
     rw [lawsT_handover h] at hp
     exact h2 _ (List.mem_map.mpr ⟨c0, hc0, rfl⟩) p hp
 
-/-- … and the capacitor voltages / inductor currents written by the hand-over ARE the values at 0⁻ of the pre-switch
-    solution (by definition of `initializeFrom`; stated for the record and used by the harness oracle `state-handover`) -/
-theorem handover_state (X : Ix → K) (x : Ix → Signal K) (h : StartsFrom X x) (n1 n2 m : Nat) (c l : K) (v0 i0 : Option K)
-    (coup : List (Nat × K × Option K)) :
-    initializeFrom X (.Cap n1 n2 c v0) = .Cap n1 n2 c (some (vpre0 x n1 n2)) ∧
-    initializeFrom X (.Ind n1 n2 m l i0 coup)
-      = .Ind n1 n2 m l (some (pre0 (x (.br m)).pre)) (coup.map (fun p => (p.1, p.2.1, some (pre0 (x (.br p.1)).pre)))) := by
-  simp [initializeFrom, vpre0_of_startsFrom h, h _]
+/-- **handover_at_partial**: the same for a switch operated at an instant `T` of the pre-switch time axis (the `T > 0`
+    and two-switch families of the harness).  The post-switch problem lives on the time axis `τ = t − T`; the state handed
+    over is `evalAt E (xp ·).post T`, the pre-switch response `xp` AT `T` — what `initialize(before, T)` substitutes and what
+    the oracle `state-handover-T` recomputes with the Lean `evalAt`.  PARTIAL: the identification of the value at `T⁻` with
+    `evalAt … T` (which takes u(0) = 1) assumes that no term of `xp` switches exactly at `T` and no impulse sits there; the
+    shift of the SOURCES to the new time axis is not modelled (Lcapy does not shift them either: only sources that are
+    constant for t > 0 are generated). -/
+theorem handover_at_partial [LinearOrder K] (E : K → K) (T : K) (xp : Ix → Signal K) (cs : List (Cpt K × Signal K))
+    (x : Ix → Signal K) (h : StartsFrom (fun ix => evalAt E (xp ix).post T) x) :
+    LawsTFormal (cs.map (fun c => (initializeFrom (fun ix => evalAt E (xp ix).post T) c.1, c.2))) x
+      ↔ LawsTFormal (cs.map (fun c => (clearIC c.1, c.2))) x :=
+  handover _ cs x h
 
 /-- the constant continuation of `X` starts from `X` -/
 example (X : Ix → ℚ) : StartsFrom X (constSignals X) := fun ix => by simp [constSignals, pre0]
@@ -243,7 +247,34 @@ theorem checkLawsT_ok (tcs : List (TCpt K)) (x : Ix → Signal K) (n : Nat) (h :
           | cons a b => rfl
         simp [hne'] at this
 
-/-- **ic_start** (and continuity): if `i = C·D v` holds formally, the voltage is impulse-free and the current has no
+/-- **checkLawsT_sound**: the verdict `ok` on a netlist whose components sit on the nodes `0 … n−1` only IS `LawsTFormal`
+    (KCL at a node no component touches is the empty residual). -/
+theorem checkLawsT_sound (tcs : List (TCpt K)) (x : Ix → Signal K) (n : Nat) (h : checkLawsT tcs x n = .ok)
+    (hn : nodesBelow n tcs = true) : LawsTFormal tcs x := by
+  obtain ⟨hk, hl⟩ := checkLawsT_ok tcs x n h
+  refine ⟨fun k hk0 => ?_, hl⟩
+  by_cases hlt : k < n
+  · exact hk k hk0 hlt
+  · rw [kclT_nil x k hk0 tcs (not_mem_nodesOf_of_nodesBelow hn (Nat.le_of_not_lt hlt))]
+    rfl
+
+/-- **tdCheck_sound** — soundness of the oracle AS THE DRIVER RUNS IT (`td.laws full|smooth`): `tdCheck` applies the
+    time-domain reading of a capacitor-controlled CCVS (`capControl`), in `smooth` mode the pre-history reading
+    (`clearIC`, `smoothSignals`), refuses inconsistent coupling records and components outside the node range, and runs
+    `checkLawsT`; the verdict `ok` implies `LawsTFormal` of exactly the problem `tdProblem` it was decided on.
+    (Carrier: any field; the driver's carrier `GQ` is the Gaussian rationals with an error value — no verdict is
+    issued on an error value since it never equals 0 — see the level note.) -/
+theorem tdCheck_sound (smooth : Bool) (brs : List String) (nNodes : Nat) (tcs : List (String × TCpt K)) (x : Ix → Signal K)
+    (h : tdCheck smooth brs nNodes tcs x = some .ok) :
+    LawsTFormal ((tdProblem smooth brs nNodes tcs x).1.map (fun c => c.2)) (tdProblem smooth brs nNodes tcs x).2.1 := by
+  unfold tdCheck at h
+  simp only at h
+  split_ifs at h with hc
+  simp only [Bool.and_eq_true] at hc
+  exact checkLawsT_sound _ _ _ (Option.some.inj h) hc.2
+
+/-- **ic_start** (formal coefficient version; the statement about the VALUE at 0⁺ is `ic_start_value`, which adds `Causal`:
+    `val0plus` is the value at 0⁺ only when no term has a negative delay).  If `i = C·D v` holds formally, the voltage is impulse-free and the current has no
     impulse at the origin, then the capacitor voltage at 0⁺ is its state at 0⁻ : the initial condition `v0` of the
     netlist when there is one, otherwise the value of its own pre-history (continuity across t = 0). -/
 theorem ic_start (x : Ix → Signal K) (n1 n2 : Nat) (c : K) (v0 : Option K) (i : ExpPoly K) (hc : c ≠ 0)
@@ -303,17 +334,6 @@ theorem ic_start_flux (x : Ix → Signal K) (n1 n2 m : Nat) (l : K) (i0 : Option
   rw [h1, h2, hv] at h0
   linear_combination -h0
 
-/-- **continuity_of_inj**: `ic_start` read for a whole-axis solution (no initial condition in the netlist): the
-    capacitor voltage is continuous across t = 0, from the transform-level law and injectivity of `L` on the residual
-    (`hinj`).  The injectivity is PROVED in Props/C02Inj.lean (`L_injective`, `L_injective_w`); the hypothesis-free
-    statement is `C02.continuity` there. -/
-theorem continuity_of_inj (E : K → K) (x : Ix → Signal K) (n1 n2 : Nat) (c : K) (i : ExpPoly K) (hc : c ≠ 0)
-    (hinj : ∀ f : ExpPoly K, (∀ s, NonPole f s → L E f s = 0) → FormalZero f)
-    (hlaw : ∀ s, NonPole (subP i (capCurrentT x n1 n2 c none)) s → L E (subP i (capCurrentT x n1 n2 c none)) s = 0)
-    (hv : NoDelta (vpost x n1 n2)) (hi : impulse0 i = 0) :
-    val0plus (vpost x n1 n2) = vpre0 x n1 n2 :=
-  ic_start x n1 n2 c none i hc (hinj _ hlaw) hv hi
-
 end formal
 
 section ordered
@@ -333,8 +353,50 @@ theorem cap_pointwise (x : Ix → Signal K) (n1 n2 : Nat) (c : K) (v0 : Option K
   rw [evalAt_subP, capCurrentT, evalAt_smul, evalAt_stateDeriv] at this
   exact sub_eq_zero.mp this
 
-/-- the inverse transform of data with non-negative delays is a causal signal -/
-theorem ilt_causal (pf : PF K) (hT : 0 ≤ pf.T) : Causal (ilt pf) := by
+/-! #### initial state as a VALUE: `val0plus` is the value at 0⁺ only for causal signals (no negative delay; audit F5 —
+    for `post = 3u(t) + 7u(t+1)` it is 3 while the signal is 10 at 0⁺), so the claimed statements carry `Causal` and
+    conclude about `evalAt … 0` (u(0) = 1, i.e. the right-hand value). -/
+
+/-- **ic_start_value**: `i = C·D v` formally, voltage impulse-free and CAUSAL, no current impulse at the origin ⇒ the
+    capacitor voltage AT 0⁺ is its state at 0⁻ (the netlist's `v0`, else its own pre-history: continuity). -/
+theorem ic_start_value (hE0 : E 0 = 1) (x : Ix → Signal K) (n1 n2 : Nat) (c : K) (v0 : Option K) (i : ExpPoly K) (hc : c ≠ 0)
+    (hlaw : FormalZero (subP i (capCurrentT x n1 n2 c v0)))
+    (hv : NoDelta (vpost x n1 n2)) (hi : impulse0 i = 0) (hcz : Causal (vpost x n1 n2)) :
+    evalAt E (vpost x n1 n2) 0 = stateOf v0 (vpre0 x n1 n2) := by
+  rw [evalAt_zero_of_causal E hE0 _ hcz]
+  exact ic_start x n1 n2 c v0 i hc hlaw hv hi
+
+/-- **ic_start_inductor_value**: an uncoupled inductor with impulse-free causal current and no voltage impulse at the
+    origin: `i_L(0⁺)` is its state at 0⁻. -/
+theorem ic_start_inductor_value (hE0 : E 0 = 1) (x : Ix → Signal K) (n1 n2 m : Nat) (l : K) (i0 : Option K) (w : Signal K)
+    (hl : l ≠ 0) (hlaw : ∀ p ∈ lawsT x (.Ind n1 n2 m l i0 [], w), FormalZero p.2)
+    (hi : NoDelta (x (.br m)).post) (hv : impulse0 (vpost x n1 n2) = 0) (hcz : Causal (x (.br m)).post) :
+    evalAt E (x (.br m)).post 0 = stateOf i0 (pre0 (x (.br m)).pre) := by
+  rw [evalAt_zero_of_causal E hE0 _ hcz]
+  exact ic_start_inductor x n1 n2 m l i0 w hl hlaw hi hv
+
+/-- **ic_start_flux_value**: coupled inductors with causal impulse-free currents: the flux linkage `L·i + Σ M·i'` AT 0⁺
+    equals its value at 0⁻. -/
+theorem ic_start_flux_value (hE0 : E 0 = 1) (x : Ix → Signal K) (n1 n2 m : Nat) (l : K) (i0 : Option K)
+    (coup : List (Nat × K × Option K)) (w : Signal K)
+    (hlaw : ∀ p ∈ lawsT x (.Ind n1 n2 m l i0 coup, w), FormalZero p.2)
+    (hi : NoDelta (x (.br m)).post) (hc : ∀ p ∈ coup, NoDelta (x (.br p.1)).post)
+    (hv : impulse0 (vpost x n1 n2) = 0) (hcz : Causal (x (.br m)).post) (hcc : ∀ p ∈ coup, Causal (x (.br p.1)).post) :
+    l * (evalAt E (x (.br m)).post 0 - stateOf i0 (pre0 (x (.br m)).pre)) +
+      lsum (coup.map (fun p => p.2.1 * (evalAt E (x (.br p.1)).post 0 - stateOf p.2.2 (pre0 (x (.br p.1)).pre)))) = 0 := by
+  rw [evalAt_zero_of_causal E hE0 _ hcz]
+  have : coup.map (fun p => p.2.1 * (evalAt E (x (.br p.1)).post 0 - stateOf p.2.2 (pre0 (x (.br p.1)).pre)))
+      = coup.map (fun p => p.2.1 * (val0plus (x (.br p.1)).post - stateOf p.2.2 (pre0 (x (.br p.1)).pre))) := by
+    apply List.map_congr_left
+    intro p hp
+    rw [evalAt_zero_of_causal E hE0 _ (hcc p hp)]
+  rw [this]
+  exact ic_start_flux x n1 n2 m l i0 coup w hlaw hi hc hv
+
+/-- the inverse transform of data with non-negative delays is a causal signal.  PARTIAL (audit F6): `ilt` copies `pf.T` into
+    the delay of every term, so the hypothesis is the conclusion for the data; that the partial-fraction data of a circuit
+    with causal sources and zero state has `0 ≤ T` is NOT derived here — it is the oracle `td.causal` on Lcapy's output. -/
+theorem ilt_causal_partial (pf : PF K) (hT : 0 ≤ pf.T) : Causal (ilt pf) := by
   intro t ht
   simp only [ilt, List.mem_append] at ht
   rcases ht with h | h
@@ -353,15 +415,17 @@ theorem ilt_causal (pf : PF K) (hT : 0 ≤ pf.T) : Causal (ilt pf) := by
     obtain ⟨r, _, rfl⟩ := h
     exact hT
 
-/-- **causal_response**: a response synthesised from partial-fraction data whose delays (those of the causal source
-    waveforms) are non-negative is causal, and vanishes before t = 0 (`C10.causal_zero_before` lifted to circuits). -/
-theorem causal_response (pfs : Ix → List (PF K)) (hT : ∀ ix, ∀ pf ∈ pfs ix, 0 ≤ pf.T) (ix : Ix) :
+/-- **causal_response_partial**: a response synthesised (`TD.response`, the model's `ilt`; run by Driver/C10, not by Driver/C02)
+    from partial-fraction data whose delays are non-negative is causal, and vanishes before t = 0
+    (`C10.causal_zero_before`).  PARTIAL: see `ilt_causal_partial`; the property clause "causal sources and zero state ⇒
+    zero for t < 0" is checked on Lcapy's output by the oracle `td.causal`, not derived from circuit hypotheses. -/
+theorem causal_response_partial (pfs : Ix → List (PF K)) (hT : ∀ ix, ∀ pf ∈ pfs ix, 0 ≤ pf.T) (ix : Ix) :
     Causal (response (pfs ix)) ∧ ∀ t, t < 0 → evalAt E (response (pfs ix)) t = 0 := by
   have hc : Causal (response (pfs ix)) := by
     intro t ht
     simp only [response, List.mem_flatMap] at ht
     obtain ⟨pf, hpf, ht⟩ := ht
-    exact ilt_causal pf (hT ix pf hpf) t ht
+    exact ilt_causal_partial pf (hT ix pf hpf) t ht
   exact ⟨hc, fun t ht => C10.causal_zero_before E _ hc t ht⟩
 
 end ordered
